@@ -4,7 +4,7 @@ from __future__ import annotations
 import random
 
 from . import celx, evalx
-from .core import Ctx, read_dump
+from .core import Ctx, read_dump, pmap
 
 FAMILIES = ["idx", "mapget", "in", "size", "concat", "mapctor", "strfn", "macro", "nested"]
 INV = """INVARIANT MapKeepsSize
@@ -77,6 +77,51 @@ def rand_prog(rng):
     return {"k": rng.choice(["call"]), "f": "size", "args": [ilist(xs)]}
 
 
+RX_TEXTS = ["", "a", "b", "ab", "ba", "aab", "abab", "a-b", "*", "a.("]
+RX_INV = "INVARIANT LiteralIsContains\nINVARIANT Anchors\nINVARIANT Uniform\nINVARIANT AltIsUnion\nCHECK_DEADLOCK FALSE\n"
+_RX = {}
+
+
+def rx_class(pat):
+    import re
+    return "".join(sorted(set(re.sub(r"[ab]", "c", pat))))
+
+
+def _replay_rx(item):
+    """one pattern against every text: bound variables (one program per runner), literals and the function form on a rotating text"""
+    pat, res, j0 = item
+    if not _RX:
+        for r in ("I", "C"):
+            _RX[r] = celx.program("t.matches(p)", r)[0]
+            _RX[r + "f"] = celx.program("matches(t, p)", r)[0]
+    bad, n = [], 0
+
+    def check(got, want, how, r, text):
+        if want == "unk":
+            return
+        g = got["t"] if got["t"] != "bool" else ("t" if got["v"] else "f")
+        g = {"err": "bad"}.get(g, g)
+        if g != want:
+            bad.append(("matches pattern{%s} exp=%s got=%s %s runner=%s" % (rx_class(pat), want, g if g in ("t", "f", "bad") else "other:" + g, how, r),
+                        {"text": text, "pattern": pat, "how": how, "runner": r, "expected": want, "observed": celx.strip_py(got)}))
+    for r in ("I", "C"):
+        for j, text in enumerate(RX_TEXTS):
+            b = {"t": celx.ct.StringType(text), "p": celx.ct.StringType(pat)}
+            o = celx.guarded(lambda: _RX[r + ("f" if (j + j0) % 4 == 0 else "")].evaluate(b))
+            n += 1
+            check(celx.outcome_abs(o), res[j], "bound", r, text)
+        text = RX_TEXTS[j0 % len(RX_TEXTS)]
+        lit = "%s.matches(%s)" % (celx.strlit(text), celx.strlit(pat))
+        n += 1
+        check(celx.outcome_abs(celx.run(lit, {}, r, cache=False)), res[j0 % len(RX_TEXTS)], "literal", r, text)
+        if res[0] == "bad":
+            # an invalid pattern is an error wherever the call stands: inside a list literal, absorbed by ||
+            for wrap, want in (("size([%s]) == 1", "bad"), ("%s || true", "t")):
+                n += 1
+                check(celx.outcome_abs(celx.run(wrap % lit, {}, r, cache=False)), want, "in " + wrap.replace("%s", "_"), r, text)
+    return n, bad
+
+
 def run(ctx: Ctx) -> int:
     q = ctx.quick
     r = ctx.tlc("MC_C09", "SPECIFICATION Spec\nCONSTANT FAMILIES = {%s}\n%s" % (", ".join('"%s"' % f for f in FAMILIES), INV),
@@ -88,10 +133,32 @@ def run(ctx: Ctx) -> int:
     ctx.cov["indefinite_states"] = sum(1 for s in states if s["exp"]["t"] == "indef")
     for it in items[:: max(1, len(items) // 5)][:5]:
         ctx.sample({"cel": celx.render_ast(it[0]), "expected": it[2]})
+    # matches(): every pattern over the regular-expression alphabet up to LEN symbols x the text list (reference matcher CelRegex)
+    r = ctx.tlc("MC_C09R", "SPECIFICATION Spec\nCONSTANT LEN = %d\n%s" % (3 if q else 4, RX_INV), dump=True, name="matches: all patterns x texts")
+    rx = [("".join(chr(c) for c in s["pat"]), s["res"], j) for j, s in enumerate(read_dump(r.dump))]
+    nrx = 0
+    for n, bad in pmap(_replay_rx, rx):
+        nrx += n
+        for sig, case in bad:
+            ctx.disagree(sig, case)
+    ctx.cov["traces_validated_against_impl"] += len(rx)
+    ctx.cov["evaluations"] += nrx
+    ctx.cov["replayed_patterns"] = len(rx)
+    ctx.cov["invalid_patterns"] = sum(1 for _, res, _ in rx if res[0] == "bad")
+    ctx.cov["patterns_outside_fragment"] = sum(1 for _, res, _ in rx if res[0] == "unk")
+    ctx.sample({"pattern": rx[len(rx) // 2][0], "texts": RX_TEXTS, "expected": rx[len(rx) // 2][1]})
     rng = random.Random(ctx.seed)
     progs = [(rand_prog(rng), []) for _ in range(1500 if q else 40000)]
+    # random patterns and texts, longer than the enumeration reaches (judged by Trace_Eval through CelEval's MatchFn)
+    ralpha = "ab.*+?|()[]^$\\-"
+    for _ in range(400 if q else 6000):
+        pat = "".join(rng.choice(ralpha) for _ in range(rng.randint(1, 7)))
+        text = "".join(rng.choice("ab-") for _ in range(rng.randint(0, 6)))
+        call = {"k": "mcall", "x": L("string", text), "f": "matches", "args": [L("string", pat)]}
+        progs.append((rng.choice([call, {"k": "list", "xs": [call]}, {"k": "bin", "op": "||", "l": call, "r": L("bool", True)}]), []))
     evalx.validate_trace(ctx, progs)
-    ctx.assumptions += ["regular expressions (matches) are not modelled in this check (RE2 is outside the modelled fragment)",
+    ctx.assumptions += ["matches(): the modelled fragment is literals . * + ? | ( ) [...] ^ $ \\punct \\d \\w \\s and non-greedy marks; counted repetition, (?...) groups, "
+                        "POSIX classes and other escapes are outside it (spec result 'unk', not compared)",
                         "heterogeneous containers and ill-typed operands are indefinite in the spec and not compared"]
     return ctx.finish(rule="TLC instantiates program templates (index, lookup, in, size, concatenation, map construction, string functions, the five "
                            "macros, nested macros) over value pools incl. every boundary index; the laws of the statement are model invariants; "
